@@ -2,9 +2,16 @@ package main
 
 // peer.go — a scripted MQTT peer over a real transport connection, and a
 // logging wrapper around the real MemoryBackend.
+//
+// Timing discipline (every file of this harness): a wait is a bounded poll for a condition
+// (waitFor / await / untilClosed); `long` bounds what the correct broker does promptly, so a slow
+// machine only makes a run slower, never red.  "Must not happen" is judged by a short absence
+// window AFTER a gate has made the situation certain: there, slowness can only hide a violation,
+// never invent one.
 
 import (
 	"fmt"
+	"runtime"
 	"strings"
 	"sync"
 	"time"
@@ -15,6 +22,14 @@ import (
 
 	"verifh/hx"
 )
+
+// long bounds everything the correct broker finishes within milliseconds (CONNACK, SUBACK, a
+// delivery, a connection being closed); it is only ever waited out when something is wrong.
+const long = 10 * time.Second
+
+// absence is the window in which something that must not happen is looked for, once a gate has
+// established the situation in which it would happen at once if the code were wrong.
+const absence = 150 * time.Millisecond
 
 type peer struct {
 	name    string
@@ -29,6 +44,8 @@ type peer struct {
 	sendMu  sync.Mutex
 	state   *subState         // shared by all connections of one subscriber: which messages it has acknowledged
 	held    []*packet.Publish // deliveries whose acknowledgement is being withheld
+	user    string            // credentials presented in CONNECT
+	pass    string
 }
 
 // releaseHeld acknowledges everything that was withheld so far and stops withholding
@@ -47,6 +64,18 @@ func (p *peer) releaseHeld() {
 			p.send(&packet.Pubrec{ID: v.ID})
 		}
 	}
+}
+
+func (p *peer) setHold(n int) {
+	p.mu.Lock()
+	p.hold = n
+	p.mu.Unlock()
+}
+
+func (p *peer) heldCount() int {
+	p.mu.Lock()
+	defer p.mu.Unlock()
+	return len(p.held)
 }
 
 // subState is the subscriber's own view across reconnects: a message counts as handled only
@@ -82,8 +111,27 @@ func (st *subState) ackedID(id packet.ID) {
 	st.mu.Unlock()
 }
 
+// missing lists the message numbers below n the subscriber has not acknowledged yet
+func (st *subState) missing(n int) []int {
+	st.mu.Lock()
+	defer st.mu.Unlock()
+	var m []int
+	for i := 0; i < n; i++ {
+		if !st.acked[i] {
+			m = append(m, i)
+		}
+	}
+	return m
+}
+
 func dialPeer(name, port string, autoAck bool) (*peer, error) {
-	conn, err := transport.Dial("tcp://localhost:" + port)
+	var conn transport.Conn
+	var err error
+	// the listener's accept queue can be momentarily full on a loaded machine: try again for a while
+	waitFor(long, func() bool {
+		conn, err = transport.Dial("tcp://localhost:" + port)
+		return err == nil
+	})
 	if err != nil {
 		return nil, err
 	}
@@ -170,15 +218,45 @@ func (p *peer) await(f func(packet.Generic) bool, d time.Duration) packet.Generi
 	}
 }
 
-func (p *peer) connect(id string, clean bool, will *packet.Message) *packet.Connack {
+// count reports how many of the packets received so far satisfy f
+func (p *peer) count(f func(packet.Generic) bool) int {
+	p.mu.Lock()
+	defer p.mu.Unlock()
+	k := 0
+	for _, g := range p.all {
+		if f(g) {
+			k++
+		}
+	}
+	return k
+}
+
+// packets is everything received so far, in order
+func (p *peer) packets() []packet.Generic {
+	p.mu.Lock()
+	defer p.mu.Unlock()
+	return append([]packet.Generic(nil), p.all...)
+}
+
+func isConnack(g packet.Generic) bool  { _, ok := g.(*packet.Connack); return ok }
+func isPingresp(g packet.Generic) bool { _, ok := g.(*packet.Pingresp); return ok }
+func isPublish(g packet.Generic) bool  { _, ok := g.(*packet.Publish); return ok }
+
+func (p *peer) sendConnect(id string, clean bool, will *packet.Message) error {
 	c := packet.NewConnect()
 	c.ClientID = id
 	c.CleanSession = clean
 	c.Will = will
-	if p.send(c) != nil {
+	c.Username = p.user
+	c.Password = p.pass
+	return p.send(c)
+}
+
+func (p *peer) connect(id string, clean bool, will *packet.Message) *packet.Connack {
+	if p.sendConnect(id, clean, will) != nil {
 		return nil
 	}
-	pkt := p.await(func(g packet.Generic) bool { _, ok := g.(*packet.Connack); return ok }, 3*time.Second)
+	pkt := p.await(isConnack, long)
 	if pkt == nil {
 		return nil
 	}
@@ -189,7 +267,17 @@ func (p *peer) subscribe(id int, filter string, qos int) bool {
 	if p.send(&packet.Subscribe{ID: packet.ID(id), Subscriptions: []packet.Subscription{{Topic: filter, QOS: packet.QOS(qos)}}}) != nil {
 		return false
 	}
-	return p.await(func(g packet.Generic) bool { s, ok := g.(*packet.Suback); return ok && int(s.ID) == id }, 3*time.Second) != nil
+	return p.await(func(g packet.Generic) bool { s, ok := g.(*packet.Suback); return ok && int(s.ID) == id }, long) != nil
+}
+
+// ping: one more request that must be answered (a connection whose goroutines are stuck contradicts no
+// safety clause until something is asked of it)
+func (p *peer) ping() bool {
+	before := p.count(isPingresp)
+	if p.send(&packet.Pingreq{}) != nil {
+		return false
+	}
+	return waitFor(long, func() bool { return p.count(isPingresp) > before })
 }
 
 func (p *peer) isClosed(d time.Duration) bool {
@@ -201,6 +289,15 @@ func (p *peer) isClosed(d time.Duration) bool {
 	}
 }
 
+func (p *peer) isOpen() bool {
+	select {
+	case <-p.closed:
+		return false
+	default:
+		return true
+	}
+}
+
 func (p *peer) close() { _ = p.conn.Close() }
 
 func (p *peer) received() []*packet.Publish {
@@ -209,7 +306,19 @@ func (p *peer) received() []*packet.Publish {
 	return append([]*packet.Publish(nil), p.got...)
 }
 
-// idle waits until no publish has arrived for `quiet`
+// countTopic: how many PUBLISHes on the topic were received
+func (p *peer) countTopic(topic string) int {
+	k := 0
+	for _, m := range p.received() {
+		if m.Message.Topic == topic {
+			k++
+		}
+	}
+	return k
+}
+
+// idle waits until no publish has arrived for `quiet` (a settle window: use it only where a late
+// arrival cannot turn a verdict red)
 func (p *peer) idle(quiet, max time.Duration) {
 	deadline := time.Now().Add(max)
 	last := -1
@@ -240,6 +349,12 @@ func (l *sysLog) cid(c *broker.Client) int {
 	return n
 }
 
+func (l *sysLog) num(c *broker.Client) int {
+	l.mu.Lock()
+	defer l.mu.Unlock()
+	return l.cid(c)
+}
+
 func (l *sysLog) add(c *broker.Client, format string, args ...interface{}) {
 	l.mu.Lock()
 	defer l.mu.Unlock()
@@ -252,24 +367,50 @@ func (l *sysLog) snapshot() []string {
 	return append([]string(nil), l.lines...)
 }
 
-// RecBackend delegates to the real MemoryBackend and logs the life cycle calls.
+// RecBackend delegates to the real MemoryBackend and logs the life cycle calls:
+//
+//	New <c>                      the engine handed a connection to NewClient (processor started)
+//	SetupCall <idhex> <clean> <c>   SetupRet ok <resumed> <c> | SetupRet err <c>
+//	WillPub <msg> <c>  WillDone <c>   the Publish issued by the cleanup goroutine, and its return
+//	TermCall <c>  Term <c>        Terminate entered / the real Terminate returned
+//	Restore <c>                  Restore returned;  DeqCall <c>  the connection's first Dequeue call
+//	Closed <c>                   the closed signal fired (logged by a watcher: never early, possibly late)
+//	Err <event> <c>              the connection logged an error event
 type RecBackend struct {
 	*broker.MemoryBackend
 	log      *sysLog
 	mu       sync.Mutex
-	setups   map[*broker.Client]int
+	setups   map[*broker.Client]int // successful Setups
+	setupAll map[*broker.Client]int // Setup calls
 	terms    map[*broker.Client]int
-	clients  []*broker.Client
-	failNext map[string]int // inject an error into the n-th call of a kind: "setup", "publish", "subscribe", "terminate"
+	clients  []*broker.Client // every connection the engine accepted, set up or not
+	known    map[*broker.Client]bool
+	failNext map[string]int    // inject an error into the n-th call of a kind: "setup", "publish", "subscribe", "terminate"
+	failFor  map[string]string // inject an error into every call of a kind made by the connection(s) of a client id
 	calls    map[string]int
 	// gates: the n-th connection presenting a client id can have its Terminate held back, or the return of
 	// its Dequeue held until the connection is closing — to steer the real goroutines into a chosen interleaving
-	perID    map[string][]*broker.Client
-	termGate map[string]chan struct{} // "<id>/<n>" -> closed to release
-	deqGate  map[string]bool          // "<id>/<n>" -> hold a dequeued message until Closing()
-	gateOf   map[*broker.Client]string
+	perID     map[string][]*broker.Client
+	termGate  map[string]chan struct{} // "<id>/<n>" -> closed to release
+	deqGate   map[string]bool          // "<id>/<n>" -> hold a dequeued message until Closing()
+	deqAtGate map[string]bool          // a dequeued message is being held right now
+	gateOf    map[*broker.Client]string
+	authGate  map[string]chan struct{} // client id -> Authenticate returns only once released
+	authAt    map[string]bool          // a connection with the id is waiting at that gate
+	setupGate map[string]chan struct{} // client id -> Setup is entered only once released
+	willGate  map[string]chan struct{} // client id -> the will's Publish proceeds only once released
+	willAt    map[string]bool          // the cleanup of a connection with the id is waiting at that gate
+	restoreGate map[string]chan struct{} // client id -> Restore returns only once released
+	restoreAt   map[string]bool
+	deqSeen     map[*broker.Client]bool // first Dequeue call of the connection logged
+	// client id -> TokenTimeout of its connections (the default, 30 s, otherwise)
+	tokenTimeoutFor map[string]time.Duration
 	// every will publication is slowed down by this much (a slow backend): what must wait for it is then visibly late
 	willDelay time.Duration
+	// Publish calls entered / returned per client id (a publisher parked inside Publish: entered > returned)
+	pubIn, pubOut map[string]int
+	// observations made at the gates: the closed signal of a connection fired although its cleanup had not finished
+	early []string
 }
 
 func (b *RecBackend) holdTerminate(id string, n int) func() {
@@ -277,13 +418,63 @@ func (b *RecBackend) holdTerminate(id string, n int) func() {
 	b.mu.Lock()
 	b.termGate[fmt.Sprintf("%s/%d", id, n)] = ch
 	b.mu.Unlock()
-	return func() { close(ch) }
+	var once sync.Once
+	return func() { once.Do(func() { close(ch) }) }
 }
 
 func (b *RecBackend) holdDequeueUntilClosing(id string, n int) {
 	b.mu.Lock()
 	b.deqGate[fmt.Sprintf("%s/%d", id, n)] = true
 	b.mu.Unlock()
+}
+
+// dequeueHeld: the n-th connection of the id has taken a message out of the queue and is held before returning it
+func (b *RecBackend) dequeueHeld(id string, n int) bool {
+	b.mu.Lock()
+	defer b.mu.Unlock()
+	return b.deqAtGate[fmt.Sprintf("%s/%d", id, n)]
+}
+
+// holdAuthenticate: connections presenting the id are held after a successful Authenticate, before Setup
+func (b *RecBackend) holdAuthenticate(id string) func() {
+	ch := make(chan struct{})
+	b.mu.Lock()
+	b.authGate[id] = ch
+	b.mu.Unlock()
+	var once sync.Once
+	return func() { once.Do(func() { close(ch) }) }
+}
+
+func (b *RecBackend) atAuthGate(id string) bool {
+	b.mu.Lock()
+	defer b.mu.Unlock()
+	return b.authAt[id]
+}
+
+// holdSetup: connections presenting the id are held at the entry of Setup
+func (b *RecBackend) holdSetup(id string) func() {
+	ch := make(chan struct{})
+	b.mu.Lock()
+	b.setupGate[id] = ch
+	b.mu.Unlock()
+	var once sync.Once
+	return func() { once.Do(func() { close(ch) }) }
+}
+
+// holdWill: the cleanup of a connection with the id is held when it hands the will to the backend
+func (b *RecBackend) holdWill(id string) func() {
+	ch := make(chan struct{})
+	b.mu.Lock()
+	b.willGate[id] = ch
+	b.mu.Unlock()
+	var once sync.Once
+	return func() { once.Do(func() { close(ch) }) }
+}
+
+func (b *RecBackend) atWillGate(id string) bool {
+	b.mu.Lock()
+	defer b.mu.Unlock()
+	return b.willAt[id]
 }
 
 // setupCalls reports how many connections have presented the id so far
@@ -293,43 +484,150 @@ func (b *RecBackend) setupCalls(id string) int {
 	return len(b.perID[id])
 }
 
+// nth: the n-th connection that presented the id (nil if there is none yet)
+func (b *RecBackend) nth(id string, n int) *broker.Client {
+	b.mu.Lock()
+	defer b.mu.Unlock()
+	l := b.perID[id]
+	if len(l) < n {
+		return nil
+	}
+	return l[n-1]
+}
+
+// parked: how many Publish calls of the client id have been entered and not returned
+func (b *RecBackend) parked(id string) int {
+	b.mu.Lock()
+	defer b.mu.Unlock()
+	return b.pubIn[id] - b.pubOut[id]
+}
+
+func (b *RecBackend) published(id string) int {
+	b.mu.Lock()
+	defer b.mu.Unlock()
+	return b.pubOut[id]
+}
+
+func (b *RecBackend) earlyClosed() []string {
+	b.mu.Lock()
+	defer b.mu.Unlock()
+	return append([]string(nil), b.early...)
+}
+
 func (b *RecBackend) Dequeue(c *broker.Client) (*packet.Message, broker.Ack, error) {
+	b.mu.Lock()
+	first := !b.deqSeen[c]
+	b.deqSeen[c] = true
+	b.mu.Unlock()
+	if first {
+		b.log.add(c, "DeqCall")
+	}
+	if b.inject("dequeue", c) {
+		return nil, nil, errInjected
+	}
 	m, ack, err := b.MemoryBackend.Dequeue(c)
 	b.mu.Lock()
-	hold := m != nil && b.deqGate[b.gateOf[c]]
+	key := b.gateOf[c]
+	hold := m != nil && b.deqGate[key]
+	if hold {
+		b.deqAtGate[key] = true
+	}
 	b.mu.Unlock()
 	if hold {
 		select {
 		case <-c.Closing():
-		case <-time.After(3 * time.Second):
+		case <-time.After(long):
 		}
+		b.mu.Lock()
+		b.deqAtGate[key] = false
+		b.mu.Unlock()
 	}
 	return m, ack, err
 }
 
 func newRecBackend() *RecBackend {
 	return &RecBackend{MemoryBackend: broker.NewMemoryBackend(), log: &sysLog{ids: map[*broker.Client]int{}},
-		setups: map[*broker.Client]int{}, terms: map[*broker.Client]int{}, failNext: map[string]int{}, calls: map[string]int{},
-		perID: map[string][]*broker.Client{}, termGate: map[string]chan struct{}{}, deqGate: map[string]bool{}, gateOf: map[*broker.Client]string{}}
+		setups: map[*broker.Client]int{}, setupAll: map[*broker.Client]int{}, terms: map[*broker.Client]int{}, known: map[*broker.Client]bool{},
+		failNext: map[string]int{}, failFor: map[string]string{}, calls: map[string]int{},
+		perID: map[string][]*broker.Client{}, termGate: map[string]chan struct{}{}, deqGate: map[string]bool{}, deqAtGate: map[string]bool{},
+		gateOf: map[*broker.Client]string{}, authGate: map[string]chan struct{}{}, authAt: map[string]bool{}, setupGate: map[string]chan struct{}{},
+		willGate: map[string]chan struct{}{}, willAt: map[string]bool{}, tokenTimeoutFor: map[string]time.Duration{},
+		restoreGate: map[string]chan struct{}{}, restoreAt: map[string]bool{}, deqSeen: map[*broker.Client]bool{},
+		pubIn: map[string]int{}, pubOut: map[string]int{}}
 }
 
 var errInjected = fmt.Errorf("injected backend failure")
 
-func (b *RecBackend) inject(kind string) bool {
+func (b *RecBackend) inject(kind string, c *broker.Client) bool {
 	b.mu.Lock()
 	defer b.mu.Unlock()
 	b.calls[kind]++
-	return b.failNext[kind] != 0 && b.failNext[kind] == b.calls[kind]
+	if b.failNext[kind] != 0 && b.failNext[kind] == b.calls[kind] {
+		return true
+	}
+	id, ok := b.failFor[kind]
+	return ok && c != nil && c.ID() == id
+}
+
+// Log registers every connection the engine accepts (also those that never reach Setup) and records error events
+func (b *RecBackend) Log(ev broker.LogEvent, c *broker.Client, pkt packet.Generic, msg *packet.Message, err error) {
+	if c != nil {
+		switch ev {
+		case broker.NewConnection:
+			b.register(c)
+			b.log.add(c, "New")
+		case broker.TransportError, broker.SessionError, broker.BackendError, broker.ClientError:
+			b.log.add(c, "Err %s", strings.Replace(string(ev), " ", "-", -1))
+		}
+	}
+	b.MemoryBackend.Log(ev, c, pkt, msg, err)
+}
+
+func (b *RecBackend) register(c *broker.Client) {
+	b.mu.Lock()
+	if !b.known[c] {
+		b.known[c] = true
+		b.clients = append(b.clients, c)
+	}
+	b.mu.Unlock()
+}
+
+func (b *RecBackend) Authenticate(c *broker.Client, user, password string) (bool, error) {
+	ok, err := b.MemoryBackend.Authenticate(c, user, password)
+	b.mu.Lock()
+	gate := b.authGate[c.ID()]
+	if gate != nil {
+		b.authAt[c.ID()] = true
+	}
+	b.mu.Unlock()
+	if gate != nil {
+		select {
+		case <-gate:
+		case <-time.After(long):
+		}
+	}
+	if b.inject("authenticate", c) {
+		return false, errInjected
+	}
+	return ok, err
 }
 
 func (b *RecBackend) Setup(c *broker.Client, id string, clean bool) (broker.Session, bool, error) {
+	b.register(c)
 	b.mu.Lock()
-	b.clients = append(b.clients, c)
+	b.setupAll[c]++
 	b.perID[id] = append(b.perID[id], c)
 	b.gateOf[c] = fmt.Sprintf("%s/%d", id, len(b.perID[id]))
+	gate := b.setupGate[id]
 	b.mu.Unlock()
 	b.log.add(c, "SetupCall %s %s", hx.Hx([]byte(id)), hx.B01(clean))
-	if b.inject("setup") {
+	if gate != nil {
+		select {
+		case <-gate:
+		case <-time.After(long):
+		}
+	}
+	if b.inject("setup", c) {
 		b.log.add(c, "SetupRet err")
 		return nil, false, errInjected
 	}
@@ -339,6 +637,9 @@ func (b *RecBackend) Setup(c *broker.Client, id string, clean bool) (broker.Sess
 	} else {
 		b.mu.Lock()
 		b.setups[c]++
+		if d, ok := b.tokenTimeoutFor[id]; ok {
+			c.TokenTimeout = d
+		}
 		b.mu.Unlock()
 		b.log.add(c, "SetupRet ok %s", hx.B01(resumed))
 		go func() {
@@ -349,52 +650,162 @@ func (b *RecBackend) Setup(c *broker.Client, id string, clean bool) (broker.Sess
 	return s, resumed, err
 }
 
+func (b *RecBackend) Restore(c *broker.Client) error {
+	b.mu.Lock()
+	gate := b.restoreGate[c.ID()]
+	if gate != nil {
+		b.restoreAt[c.ID()] = true
+	}
+	b.mu.Unlock()
+	if gate != nil {
+		select {
+		case <-gate:
+		case <-time.After(long):
+		}
+	}
+	if b.inject("restore", c) {
+		return errInjected
+	}
+	err := b.MemoryBackend.Restore(c)
+	b.log.add(c, "Restore")
+	return err
+}
+
+// holdRestore: Restore of connections with the id returns only once released (the connection has re-sent its stored
+// packets and must not dequeue anything yet)
+func (b *RecBackend) holdRestore(id string) func() {
+	ch := make(chan struct{})
+	b.mu.Lock()
+	b.restoreGate[id] = ch
+	b.mu.Unlock()
+	var once sync.Once
+	return func() { once.Do(func() { close(ch) }) }
+}
+
+func (b *RecBackend) atRestoreGate(id string) bool {
+	b.mu.Lock()
+	defer b.mu.Unlock()
+	return b.restoreAt[id]
+}
+
+func closedNow(c *broker.Client) bool {
+	select {
+	case <-c.Closed():
+		return true
+	default:
+		return false
+	}
+}
+
+func (b *RecBackend) noteEarly(c *broker.Client, where string) {
+	if closedNow(c) {
+		b.mu.Lock()
+		b.early = append(b.early, fmt.Sprintf("client %d: closed signal fired %s", b.log.num(c), where))
+		b.mu.Unlock()
+		b.log.add(c, "ClosedEarly")
+	}
+}
+
 func (b *RecBackend) Terminate(c *broker.Client) error {
 	b.mu.Lock()
 	b.terms[c]++
 	gate := b.termGate[b.gateOf[c]]
 	b.mu.Unlock()
+	b.log.add(c, "TermCall")
 	if gate != nil {
 		select {
 		case <-gate:
-		case <-time.After(4 * time.Second):
+		case <-time.After(long):
 		}
+		// the cleanup is still inside Terminate: the closed signal cannot have fired
+		b.noteEarly(c, "while its Terminate was still running")
 	}
 	err := b.MemoryBackend.Terminate(c)
 	b.log.add(c, "Term")
-	if b.inject("terminate") {
+	if b.inject("terminate", c) {
 		return errInjected
 	}
 	return err
 }
 
-func (b *RecBackend) Publish(c *broker.Client, m *packet.Message, ack broker.Ack) error {
-	if ack == nil && c != nil {
-		// QoS 0 publishes and wills arrive without closure; the will is the one published after the connection died
-		select {
-		case <-c.Closing():
-			b.log.add(c, "WillPub %s", hx.MsgText(m))
-			if b.willDelay > 0 {
-				time.Sleep(b.willDelay)
-			}
-			defer b.log.add(c, "WillDone")
-		default:
-		}
+// callSite tells which part of broker/client.go is calling Backend.Publish: the processor handling a
+// PUBLISH ("publish"), the processor releasing a stored QoS 2 message ("pubrel"), or neither — the cleanup
+// goroutine publishing the will, whatever its helper functions are called
+func callSite() string {
+	buf := make([]byte, 16384)
+	s := string(buf[:runtime.Stack(buf, false)])
+	switch {
+	case strings.Contains(s, ".processPubrel("):
+		return "pubrel"
+	case strings.Contains(s, ".processPublish("):
+		return "publish"
 	}
-	if b.inject("publish") {
+	return "will"
+}
+
+func (b *RecBackend) Publish(c *broker.Client, m *packet.Message, ack broker.Ack) error {
+	site := "publish"
+	id := ""
+	if c != nil {
+		id = c.ID()
+		site = callSite()
+	}
+	b.mu.Lock()
+	b.pubIn[id]++
+	b.mu.Unlock()
+	defer func() {
+		b.mu.Lock()
+		b.pubOut[id]++
+		b.mu.Unlock()
+	}()
+	if site == "will" && c != nil {
+		b.log.add(c, "WillPub %s", hx.MsgText(m))
+		b.mu.Lock()
+		wg := b.willGate[id]
+		if wg != nil {
+			b.willAt[id] = true
+		}
+		b.mu.Unlock()
+		if wg != nil {
+			select {
+			case <-wg:
+			case <-time.After(long):
+			}
+			b.noteEarly(c, "while its will was still being published")
+		}
+		if b.willDelay > 0 {
+			time.Sleep(b.willDelay)
+			// the cleanup is still publishing the will: the closed signal cannot have fired
+			b.noteEarly(c, "while its will was still being published")
+		}
+		defer b.log.add(c, "WillDone")
+	}
+	kind := "publish-" + site
+	if site == "publish" {
+		kind = fmt.Sprintf("publish-qos%d", m.QOS)
+	}
+	if b.inject("publish", c) || b.inject(kind, c) {
 		return errInjected
 	}
 	return b.MemoryBackend.Publish(c, m, ack)
 }
 
 func (b *RecBackend) Subscribe(c *broker.Client, subs []packet.Subscription, ack broker.Ack) error {
-	if b.inject("subscribe") {
+	if b.inject("subscribe", c) {
 		return errInjected
 	}
 	return b.MemoryBackend.Subscribe(c, subs, ack)
 }
 
-// lifecycle check: every client that was set up is terminated exactly once and its closed signal fired
+func (b *RecBackend) Unsubscribe(c *broker.Client, topics []string, ack broker.Ack) error {
+	if b.inject("unsubscribe", c) {
+		return errInjected
+	}
+	return b.MemoryBackend.Unsubscribe(c, topics, ack)
+}
+
+// lifecycle check: the closed signal of every connection the engine accepted fires; a connection that was set up is
+// terminated exactly once, one whose Setup failed at most once, one that never reached Setup never
 func (b *RecBackend) lifecycle(wait time.Duration) []string {
 	b.mu.Lock()
 	clients := append([]*broker.Client(nil), b.clients...)
@@ -405,19 +816,26 @@ func (b *RecBackend) lifecycle(wait time.Duration) []string {
 		select {
 		case <-c.Closed():
 		case <-time.After(time.Until(deadline)):
-			bad = append(bad, fmt.Sprintf("client %d: closed signal did not fire", b.log.cid(c)))
+			bad = append(bad, fmt.Sprintf("client %d: closed signal did not fire", b.log.num(c)))
 			continue
 		}
 		b.mu.Lock()
-		s, t := b.setups[c], b.terms[c]
+		s, sa, t := b.setups[c], b.setupAll[c], b.terms[c]
 		b.mu.Unlock()
 		if s > 0 && t != 1 {
-			bad = append(bad, fmt.Sprintf("client %d: set up %d time(s), terminated %d time(s)", b.log.cid(c), s, t))
+			bad = append(bad, fmt.Sprintf("client %d: set up %d time(s), terminated %d time(s)", b.log.num(c), s, t))
 		}
 		if t > 1 {
-			bad = append(bad, fmt.Sprintf("client %d: terminated %d times", b.log.cid(c), t))
+			bad = append(bad, fmt.Sprintf("client %d: terminated %d times", b.log.num(c), t))
+		}
+		if sa == 0 && t > 0 {
+			bad = append(bad, fmt.Sprintf("client %d: terminated %d time(s) although Setup was never called for it", b.log.num(c), t))
+		}
+		if sa > 1 {
+			bad = append(bad, fmt.Sprintf("client %d: Setup called %d times", b.log.num(c), sa))
 		}
 	}
+	bad = append(bad, b.earlyClosed()...)
 	return bad
 }
 
